@@ -1,4 +1,4 @@
-import CollectionsC.Proofs.ArrayMem
+import CollectionsC.Proofs.ArrayUncond
 /-! # C16 (array and stack part) — rejected operations are inert, for every argument value
 
 Statements only.  For every indexed function of `cc_array.c` and **every index in `Nat`** (the whole
@@ -162,6 +162,40 @@ theorem zip_error_is_inert (a1 a2 : Arr) (it : ArrIter) (z : Spec.Seq.ZipCursor)
     ((Arr.zipReplace a1 a2 it x y m).1 ≠ .ok → (Arr.zipReplace a1 a2 it x y m).2.2.1 = a1 ∧
       (Arr.zipReplace a1 a2 it x y m).2.2.2.1 = a2) :=
   ⟨(Arr.zipRemove_sim a1 a2 it z m h1 h2 hs).2.2.2.2.2.2.2.2, (Arr.zipReplace_sim a1 a2 it z x y m h1 h2 hs).2.2.2.2.2.2.2.2⟩
+
+/-- **iterator and zip rejections for every cursor value** — no relation between the cursor and the
+array(s) is assumed (a stale cursor after the array was shortened through the API, a cursor that never
+yielded: `index - 1` wraps to 2^64 − 1, an element already removed, the end reached): whenever
+`iter_next`, `iter_remove`, `iter_replace`, `zip_iter_next`, `zip_iter_remove`, `zip_iter_replace` report
+a status other than `CC_OK`, the array(s), the cursor and the whole ledger are exactly what they were,
+and no out-value is produced.  The guards are pure index comparisons; not even the invariant is needed. -/
+theorem iter_rejections_inert_any (a a2 : Arr) (it : ArrIter) (x y : Nat) (m : Mem) :
+    ((a.iterNext it m).1 ≠ .ok → a.iterNext it m = (.iterEnd, none, it, m)) ∧
+    ((a.iterRemove it m).1 ≠ .ok → (a.iterRemove it m).2.1 = none ∧ (a.iterRemove it m).2.2.1 = a ∧
+      (a.iterRemove it m).2.2.2.1 = it ∧ (a.iterRemove it m).2.2.2.2 = m) ∧
+    ((a.iterReplace it x m).1 ≠ .ok → a.iterReplace it x m = (.errOutOfRange, none, a, m)) ∧
+    ((Arr.zipNext a a2 it m).1 ≠ .ok → Arr.zipNext a a2 it m = (.iterEnd, none, it, m)) ∧
+    ((Arr.zipRemove a a2 it m).1 ≠ .ok → (Arr.zipRemove a a2 it m).2.1 = none ∧ (Arr.zipRemove a a2 it m).2.2.1 = a ∧
+      (Arr.zipRemove a a2 it m).2.2.2.1 = a2 ∧ (Arr.zipRemove a a2 it m).2.2.2.2.1 = it ∧
+      (Arr.zipRemove a a2 it m).2.2.2.2.2 = m) ∧
+    ((Arr.zipReplace a a2 it x y m).1 ≠ .ok → Arr.zipReplace a a2 it x y m = (.errOutOfRange, none, a, a2, m)) :=
+  ⟨Arr.iterNext_inert_any a it m, Arr.iterRemove_inert_any a it m, Arr.iterReplace_inert_any a it x m,
+   Arr.zipNext_inert_any a a2 it m, Arr.zipRemove_inert_any a a2 it m, Arr.zipReplace_inert_any a a2 it x y m⟩
+
+/-- `iter_add` / `zip_iter_add` for every cursor value (invariant only): a call that does not report
+`CC_OK` leaves the content(s) and the cursor as they were — `C08Array.zipAdd_all_or_nothing`; for
+`iter_add` the whole state -/
+theorem iter_add_rejection_inert_any (a : Arr) (it : ArrIter) (x : Nat) (m : Mem) (hinv : a.Inv)
+    (h : (a.iterAdd it x m).1 ≠ .ok) : (a.iterAdd it x m).2.1 = a ∧ (a.iterAdd it x m).2.2.1 = it := by
+  obtain ⟨sp, _, _⟩ := Arr.addAt_spec a x it.index m hinv
+  unfold Arr.iterAdd at h ⊢
+  by_cases hok : (a.addAt x it.index m).1 = .ok
+  · simp only [hok, if_true] at h; exact absurd rfl h
+  · simp only [hok, if_false]
+    rcases sp with ⟨_, ⟨ok, _⟩ | ⟨_, hsame⟩⟩ | ⟨_, e⟩
+    · exact absurd ok hok
+    · exact ⟨hsame, trivial⟩
+    · rw [e]; exact ⟨rfl, trivial⟩
 
 /-! Non-vacuity: an array of size 3 in a block of 4; every boundary index is rejected and the state
 (including the dead slot) is what it was -/
